@@ -64,7 +64,7 @@ func (vm *Manager) Listen(name string, sk string, allowUsers []string) (*netpkg.
 }
 
 func (vm *Manager) NewConn(name string, conn net.Conn, timestamp int64, signKey string,
-	useEncryption bool, useCompression bool, visitorUser string,
+	useEncryption bool, useCompression bool, visitorUser string, beforeHandOff func() error,
 ) (err error) {
 	vm.mu.RLock()
 	defer vm.mu.RUnlock()
@@ -89,6 +89,13 @@ func (vm *Manager) NewConn(name string, conn net.Conn, timestamp int64, signKey 
 		}
 		if useCompression {
 			rwc = libio.WithCompression(rwc)
+		}
+		// Once the connection is handed to the proxy the other end of the tunnel may write to it at
+		// any moment, so whatever has to precede the tunnelled bytes is sent from here.
+		if beforeHandOff != nil {
+			if err = beforeHandOff(); err != nil {
+				return
+			}
 		}
 		err = l.l.PutConn(netpkg.WrapReadWriteCloserToConn(rwc, conn))
 	} else {
